@@ -72,6 +72,7 @@ def parseOp (j : Json) : Except String Op := do
       | _ => throw "bad item")
     pure (.mkDerived cls items (← getRat j "v") (← parseKind (← getStr j "kind")) (← getRats j "xs"))
   | "arith" => pure (.arith (← parseBin (← getStr j "f")) (← parseOperand j "a") (← parseOperand j "b"))
+  | "pow" => pure (.pow (← getNat j "i") (← getInt j "e"))
   | "eq" => pure (.eq (← getNat j "i") (← getNat j "j"))
   | "lt" => pure (.lt (← getNat j "i") (← getNat j "j"))
   | "getValue" => pure (.getValue (← getNat j "i") (← getSymOpt j "u"))
@@ -161,6 +162,7 @@ def opMag (s : St) : Op → Rat
   | .mkDerived _ _ v _ xs => maxR (absR v) (maxL xs)
   | .mkArrayFrom i .. => magSnap (snap s i)
   | .arith _ a b => maxR (operandMag s a) (operandMag s b)
+  | .pow i _ => magSnap (snap s i)
   | .eq i j => maxR (magSnap (snap s i)) (magSnap (snap s j))
   | .lt i j => maxR (magSnap (snap s i)) (magSnap (snap s j))
   | .getValue i _ => magSnap (snap s i)
